@@ -278,8 +278,22 @@ def search(ctx):
                 pb["_big"] = True
                 items.append((p.NAME, pb, False))
     random.Random(ctx.seed).shuffle(items)
-    nchunk = max(1, min(len(items), 16 * 8))
-    chunks = [(runner, items[i::nchunk], 300000 if ctx.thorough else 70000) for i in range(nchunk)]
+    maxans = 300000 if ctx.thorough else 70000
+    # the potentially long cases (big boards; candidate enumerations of 2^14 grids and more) go first, one per chunk, so
+    # that no worker is left with several of them at the end
+    def heavy(it):
+        name, pb, _ = it
+        if isinstance(pb, dict) and pb.get("_big"):
+            return True
+        try:
+            return byname_all[name].ncand(pb) >= 16000
+        except Exception:  # noqa
+            return False
+    byname_all = {p.NAME: p for p in plugs}
+    hv = [it for it in items if heavy(it)]
+    rest = [it for it in items if not heavy(it)]
+    nchunk = max(1, min(len(rest), 16 * 8))
+    chunks = [(runner, [it], maxans) for it in hv] + [(runner, rest[i::nchunk], maxans) for i in range(nchunk)]
     byname = {p.NAME: p for p in plugs}
     stats = {}
     mpctx = multiprocessing.get_context("fork")
@@ -290,6 +304,8 @@ def search(ctx):
                 st = stats.setdefault(name, {"ok": 0, "violation": 0, "harness": 0, "skipped": 0, "t": 0.0, "real_diff": 0})
                 st[r["status"]] += 1
                 st["t"] += r.get("t", 0)
+                if r.get("t", 0) > st.get("tmax", 0):
+                    st["tmax"] = r.get("t", 0)
                 tok = L.pb_tokens(p.encode(pb)) if r["status"] != "harness" else repr(pb)[:200]
                 if r["status"] == "ok":
                     ctx.prop_case(name, tok, nontrivial=True)
@@ -314,8 +330,8 @@ def search(ctx):
     if ctx.deep:
         _deep_search(ctx, plugs)
     for name, st in sorted(stats.items()):
-        ctx.note("search %s: %d agree, %d violations, %d skipped, %d harness errors, %.0fs cpu" % (
-            name, st["ok"], st["violation"], st["skipped"], st["harness"], st["t"]))
+        ctx.note("search %s: %d agree, %d violations, %d skipped, %d harness errors, %.0fs cpu (slowest case %.0fs)" % (
+            name, st["ok"], st["violation"], st["skipped"], st["harness"], st["t"], st.get("tmax", 0)))
 
 
 def _deep_worker(q, names, tier, seed, runner):
